@@ -182,6 +182,9 @@ def _header_listing(data, fmt="header"):
         shutil.rmtree(d, ignore_errors=True)
 
 
+_SCR = []
+
+
 def run_case(case, ctx):
     from xdis.load import load_module, load_module_from_file_object
 
@@ -230,6 +233,36 @@ def run_case(case, ctx):
             ctx.violation(sigbase + ":" + name, "%s is %r, header stores %r (%s, header %s)" % (name, got, want, exp["tag"], case["pyc"][8:40]))
     if pypy:
         ctx.violation(sigbase + ":pypy", "CPython magic %d reported as PyPy" % mi)
+    # every public route to the header reports the same fields: file object / path x get_code True / False
+    import os
+    import tempfile
+
+    if not _SCR:
+        _SCR.append(tempfile.mkdtemp(prefix="verif-c06-"))
+    want_fields = (tuple(v[:2]), ts, magic_int, bool(pypy), size, sip)
+    for route in ("fileobj:get_code=%s" % (not get_code), "path:get_code=True", "path:get_code=False"):
+        gc = route.endswith("True")
+        if route.startswith("path") and len(data) < 50:
+            continue    # load_module refuses files shorter than 50 bytes by design
+        if gc and not get_code:
+            continue    # synthetic headers without a payload cannot be asked for their code
+        ctx.count("header_routes")
+        try:
+            if route.startswith("path"):
+                pth = os.path.join(_SCR[0], "h.pyc")
+                with open(pth, "wb") as f:
+                    f.write(data)
+                r2 = load_module(pth, get_code=gc)
+            else:
+                r2 = load_module_from_file_object(io.BytesIO(data), filename="<c06>", get_code=gc)
+            got_fields = (tuple(r2[0][:2]), r2[1], r2[2], bool(r2[4]), r2[5], r2[6])
+            if got_fields != want_fields:
+                ctx.violation(sigbase + ":route-differs:" + route.replace("=", "-"), "%s reports (version, ts, magic, pypy, size, hash) = %r, the default route %r (%s, header %s)"
+                              % (route, got_fields, want_fields, exp["tag"], case["pyc"][8:40]))
+            if not gc and r2[3] is not None:
+                ctx.violation(sigbase + ":route-get_code-false-returns-code", "%s returned a code object" % route)
+        except Exception as e:
+            ctx.violation(sigbase + ":route-raises:%s:%s" % (route.replace("=", "-"), type(e).__name__), "%r (%s)" % (e, exp["tag"]))
     if get_code:
         if case.get("tree") is not None:
             d = tree_diff(case["tree"], xcanon(co, ver))
@@ -306,3 +339,10 @@ def run_corpus(case, ctx):
 
 def summarize(plan, counts, extras, results):
     return {"model_conformance": {"M-hdr_replayed_against_real_headers_and_classify_pyc": plan["model_conformance"]}}
+
+
+def worker_fini(ctx):
+    import shutil
+
+    for d in _SCR:
+        shutil.rmtree(d, ignore_errors=True)
